@@ -44,7 +44,6 @@ import (
 	"sync"
 
 	"go4.org/jsonconfig"
-	"go4.org/syncutil"
 
 	"perkeep.org/internal/lru"
 	"perkeep.org/pkg/blob"
@@ -241,15 +240,13 @@ func (sto *Storage) ReceiveBlob(ctx context.Context, br blob.Ref, src io.Reader)
 }
 
 func (sto *Storage) RemoveBlobs(ctx context.Context, blobs []blob.Ref) error {
-	var gr syncutil.Group
-	gr.Go(func() error {
-		return sto.cache.RemoveBlobs(ctx, blobs)
-	})
-	gr.Go(func() error {
-		return sto.origin.RemoveBlobs(ctx, blobs)
-	})
-	gr.Wait()
-	return gr.Err()
+	// Remove from the cache first, and only then from the origin: if the
+	// cache's removal failed after the origin's had succeeded, the cache
+	// would keep serving blobs that no longer exist.
+	if err := sto.cache.RemoveBlobs(ctx, blobs); err != nil {
+		return err
+	}
+	return sto.origin.RemoveBlobs(ctx, blobs)
 }
 
 func (sto *Storage) EnumerateBlobs(ctx context.Context, dest chan<- blob.SizedRef, after string, limit int) error {
